@@ -312,6 +312,38 @@ def generator_param_source_ends(sl):
     observe("no normal -> warm-up transition", all(not (a[1] == N and b[1] == W) for a, b in zip(items, items[1:])))
 
 
+def looped_bulk_progress(sl):
+    """a bulk task without an end of its own (background indexing in a parallel element with completed-by) whose parameter source starts
+    the corpus over and over ("looped"): the REAL bulk parameter source behind the real schedule generator never reports decreasing progress"""
+    from esrally.track import params as tparams
+    from harness import c03
+
+    docs = concrete(fresh_int("documents", 2, 4))
+    bulk = concrete(fresh_int("bulk_size", 1, 2))
+    warm = concrete(fresh_int("task_has_warmup_iterations_only", 0, 1))
+    c03.FILES.clear()
+    name = "/nonexistent-verif/looped.json"
+    c03.FILES[name] = [b'{"f":0,"i":%d}\n' % i for i in range(docs)]
+    corpus = track.DocumentCorpus("c", [track.Documents("bulk", document_file=name, number_of_documents=docs, target_index="idx")])
+    t = track.Track("t", corpora=[corpus], indices=[track.Index("idx")])
+    n_req = 3 * ((docs + bulk - 1) // bulk) + 1  # more than two rounds through the corpus
+    with shadowed(tparams, (), extra={"io": c03.MemIo}):
+        src = tparams.BulkIndexParamSource(t, {"bulk-size": bulk, "looped": True})
+        part = src.partition(0, 1)
+        task = track.Task("t", track.Operation("op", "bulk"), warmup_iterations=1 if warm else None)
+        lc = driver.IterationBased(1 if warm else 0, None) if warm else driver.TimePeriodBased(0, None)
+        h = driver.ScheduleHandle(driver.TaskAllocation(task, 0, 0, 1), FixedStep(), lc, "runner", part)
+        h.start()
+        items, ended = _collect(h(), n_req)
+    core.trace("yielded", len(items))
+    observe("a looped source keeps the task going (it ends through completed-by only)", not ended and len(items) == n_req)
+    prog = [it[2] for it in items]
+    core.note("progress", prog)
+    observe("progress stays within [0,1] wherever it is reported", all(p is None or 0 <= p <= 1 for p in prog))
+    known = [p for p in prog if p is not None]
+    observe("reported progress never decreases (also when the corpus starts over)", all(b >= a for a, b in zip(known, known[1:])))
+
+
 def generator_time(sl):
     """time-based: no request is produced after a clock read >= start + warmup + period"""
     k = sl["steps"]
@@ -582,6 +614,11 @@ HARNESSES = [
             bounds={"warmup + iterations": "<=4 quick / <=6 thorough"}, real_valued=True, doc="real schedule generator with IterationBased"),
     Harness("generator_param_source_ends", generator_param_source_ends, "symbolic", lambda tier: [{"limit": k} for k in (0, 1, 3)], reads=READS,
             real_valued=True, doc="parameter source ends an infinite schedule"),
+    Harness("looped_bulk_progress", looped_bulk_progress, "bounded-exhaustive", lambda tier: [{}],
+            reads=READS + [__import__("esrally.track.params", fromlist=["x"]).PartitionBulkIndexParamSource.params,
+                           __import__("esrally.track.params", fromlist=["x"]).PartitionBulkIndexParamSource.percent_completed.fget],
+            stubs=["io.MmapSource replaced by the in-memory source of C03"], bounds={"documents": "2..4", "bulk size": "1..2", "requests": "more than two rounds through the corpus"},
+            doc="progress reported by the real looped bulk parameter source through the real schedule generator"),
     Harness("generator_time", generator_time, "symbolic", lambda tier: [{"steps": 3 if tier == "quick" else 5}], reads=READS, stubs=CLK,
             bounds={"requests": "<=3 quick / <=5 thorough", "periods, clock": "unbounded reals"}, assumptions=ASSUME, real_valued=True,
             doc="real schedule generator with TimePeriodBased on a symbolic clock"),
